@@ -21,8 +21,9 @@ connection) or a failed first connection; `OkRun a s steps` says the schedule `s
   interaction-by-interaction model `fineCommand` (`Nsq.Model.LookupPeer`) of `Command` / `connectCallback`.
 
 Wall-clock: k ticks after the last fault lie within (k+1) heartbeat intervals plus the time the Commands themselves
-take (each round trip bounded by 1 s ONLY on the tree with fixes/F39_lookup_peer_deadline_per_round_trip.patch: today the read deadline is per Read and a drip-fed reply
-is never timed out - finding `slow-reply-holds-lookup-loop`); the harness measures ticks (heartbeat log
+take (each round trip is bounded by 1 s since F39, /repo 233d375: one deadline per round trip, tie
+`Tie.LookupSync.read_deadline_shape`; before it the read deadline was per Read and a drip-fed reply was never timed out -
+finding `slow-reply-holds-lookup-loop`, fixed, replay corpus/C16/fixed/slow_drip_reply.ops); the harness measures ticks (heartbeat log
 lines of the real `lookupLoop`) and time.
 -/
 namespace Nsq.Props.C16Ticks
